@@ -17,7 +17,11 @@ PROPS["C10"] = dict(
           "file write the other copy is a complete list holding all previously COMPLETE jobs, and for injected crashes (process dies "
           "after byte k of a write, file truncated to k bytes) a complete surviving copy. non-trivial = >=2 processes with a lock "
           "attempt while another was inside, or a crash strictly inside a file. thorough enumerates EVERY byte offset of the first five "
-          "writes of a process for four fixed two-process histories."),
+          "writes of a process for four fixed two-process histories."
+          " Jobs may fail in given processes (fail mask): a FAILED result of a live process is re-opened by a concurrently running process "
+          "whose restart pattern names stat(FAILED); then the job is executed again and the LAST execution's result must be the final record "
+          "(per-process restart patterns, may/must oracle for the first execution). thorough also runs two histories in which a process is kept "
+          "inside the critical section for 32 s while another waits for the file lock."),
     assumptions=COMMON_ASSUME + [
         "crash = process death after byte k of a sequential write (no torn sectors / page-cache reordering)",
         "a process that does not report SYNC_LOCKED within 300 ms while another is inside is treated as blocked on the file lock; the timeout can only hide a violation, never invent one",
